@@ -45,6 +45,8 @@ def case(cid, rng, kind, padded, est):
     X = rng.integers(-4, 5, size=(n, f))
     while np.linalg.matrix_rank(X) < f:              # input conditioning (full column rank where the property needs it)
         X = rng.integers(-4, 5, size=(n, f))
+    if kind != "recover" and f >= 2 and rng.random() < 0.5:
+        X[:, int(rng.integers(f))] *= 3          # anisotropic source: a biased linear fit then shrinks directions unevenly
     if kind == "recover":
         Qm, Qden = rat_orth(rng, p if padded else f)
         X = X * Qden
@@ -59,10 +61,11 @@ def case(cid, rng, kind, padded, est):
         if kind == "noisy-linear":
             A = rng.integers(-2, 3, size=(f, t))
             Y = X @ A + rng.integers(-1, 2, size=(n, t))
-    lin = None if est == "default" else (LinearRegression(fit_intercept=False) if est == "lr0" else Ridge(alpha=0.5, fit_intercept=False))
+    # user-supplied regularised estimators from nearly unbiased to strongly biased (the Procrustes target is y itself, not its fit)
+    lin = None if est == "default" else (LinearRegression(fit_intercept=False) if est == "lr0" else Ridge(alpha=float(rng.choice([0.5, 30.0, 300.0])), fit_intercept=False))
     c = {"id": cid, "kind": kind + "/" + est, "padded": bool(padded), "X": X.astype(int).tolist(), "Y": Y.astype(int).tolist(), "Om": [],
          "Q": [] if (Q is None or not (f == t)) else Q.astype(int).tolist(), "Qden": int(Qden), "U": [], "Vt": [], "sv": [], "lincoef": [], "fullrank": False,
-         "preds": [], "newX": [], "raised": False}
+         "preds": [], "newX": [], "raised": False, "Rstar": []}
     if kind == "recover" and f != t:
         c["Q"] = []
         c["zero_res"] = True
@@ -79,14 +82,22 @@ def case(cid, rng, kind, padded, est):
             newX = rng.integers(-4, 5, size=(3, f))
             c["newX"] = newX.astype(int).tolist()
             c["preds"] = fq(m.predict(newX.astype(float)))
+            from scipy.linalg import orthogonal_procrustes
+            if padded:
+                # competitor witness: an orthogonal matrix (verified by the specification) whose residual the fit may not exceed
+                c["Rstar"] = fq(orthogonal_procrustes(np.pad(X, [(0, 0), (0, p - f)]).astype(float), np.pad(Y, [(0, 0), (0, p - t)]).astype(float))[0])
             if not padded:
                 from sklearn.base import clone
                 le = clone(lin) if lin is not None else LinearRegression()
                 le.fit(X.astype(float), Y.astype(float))
                 coef = np.reshape(le.coef_.T, (f, -1))
                 U, sv, Vt = np.linalg.svd(coef, full_matrices=False)          # witness, verified by the specification
-                c["U"], c["Vt"], c["sv"], c["lincoef"] = fq(U), fq(Vt), fq(sv), fq(coef)
-                c["fullrank"] = bool(sv[-1] > 1e-3 * max(sv[0], 1e-12) and sv[-1] > 1e-2)
+                # singular vectors do not depend on the scale of the coefficients: small (strongly regularised) coefficients
+                # are logged times a power of two so that the witness is verified at full fixed-point resolution
+                sc = 2.0 ** max(0, -int(np.ceil(np.log2(max(np.abs(coef).max(), 1e-30)))))
+                c["U"], c["Vt"], c["sv"], c["lincoef"] = fq(U), fq(Vt), fq(sv * sc), fq(coef * sc)
+                c["fullrank"] = bool(sv[-1] > 1e-3 * max(sv[0], 1e-12) and sv[-1] * sc > 1e-2)
+                c["Rstar"] = fq(orthogonal_procrustes(X.astype(float) @ U, Y.astype(float) @ Vt.T)[0])      # competitor between the reduced spaces
     except Exception as e:  # noqa
         c["raised"] = True
         c["msg"] = "%s: %s" % (type(e).__name__, str(e)[:100])
@@ -105,7 +116,7 @@ def gen(args):
     return out
 
 
-KEYS = ("id", "kind", "padded", "X", "Y", "Om", "Q", "Qden", "U", "Vt", "sv", "lincoef", "fullrank", "preds", "newX", "raised")
+KEYS = ("id", "kind", "padded", "X", "Y", "Om", "Q", "Qden", "U", "Vt", "sv", "lincoef", "fullrank", "preds", "newX", "raised", "Rstar")
 
 
 def strip(c):
